@@ -1,5 +1,7 @@
 package main
 
+import "strings"
+
 func init() {
 	const (
 		tmpl    = "internal/controllers/objecttemplate/template_reconciler.go"
@@ -20,6 +22,25 @@ func init() {
 		remote  = "internal/controllers/objectsets/remotephase_reconciler.go"
 		keych   = "internal/packages/internal/packageimport/kubekeychain/kubekeychain.go"
 	)
+	// the per-document body of parseObjects moved into a helper that returns (object, error); the
+	// producer admits the helper's object when the helper's error is nil
+	const objsBody = "\t\tobj := unstructured.Unstructured{}\n\t\tif err = yaml.Unmarshal(yamlDocument, &obj); err != nil {\n\t\t\terr = packagetypes.ViolationError{\n\t\t\t\tReason:  packagetypes.ViolationReasonInvalidYAML,\n\t\t\t\tDetails: err.Error(),\n\t\t\t\tPath:    path,\n\t\t\t\tIndex:   ptr.To(idx),\n\t\t\t\tSubject: string(yamlDocument),\n\t\t\t}\n\t\t\treturn\n\t\t}\n\n" +
+		"\t\t// The condition-map annotation is parsed again when collecting objects into phases,\n\t\t// where no error can be reported anymore.\n" +
+		"\t\tif _, cmErr := parseConditionMapAnnotation(&obj); cmErr != nil {\n\t\t\terr = packagetypes.ViolationError{\n\t\t\t\tReason:  packagetypes.ViolationReasonInvalidConditionMapAnnotation,\n\t\t\t\tDetails: cmErr.Error(),\n\t\t\t\tPath:    path,\n\t\t\t\tIndex:   ptr.To(idx),\n\t\t\t}\n\t\t\treturn\n\t\t}\n"
+	const objsBodyCall = "\t\tvar obj unstructured.Unstructured\n\t\tobj, err = c19tParseObject(path, idx, yamlDocument)\n\t\tif err != nil {\n\t\t\treturn\n\t\t}\n"
+	const objsLabelsDoc = "func commonLabels(manifest *manifests.PackageManifest, packageName string) map[string]string {\n"
+	const objsHelper = "func c19tParseObject(path string, idx int, yamlDocument []byte) (unstructured.Unstructured, error) {\n" +
+		"\tobj := unstructured.Unstructured{}\n\tif err := yaml.Unmarshal(yamlDocument, &obj); err != nil {\n\t\treturn obj, packagetypes.ViolationError{\n\t\t\tReason:  packagetypes.ViolationReasonInvalidYAML,\n\t\t\tDetails: err.Error(),\n\t\t\tPath:    path,\n\t\t\tIndex:   ptr.To(idx),\n\t\t\tSubject: string(yamlDocument),\n\t\t}\n\t}\n\n" +
+		"\tif _, cmErr := parseConditionMapAnnotation(&obj); cmErr != nil {\n\t\treturn obj, packagetypes.ViolationError{\n\t\t\tReason:  packagetypes.ViolationReasonInvalidConditionMapAnnotation,\n\t\t\tDetails: cmErr.Error(),\n\t\t\tPath:    path,\n\t\t\tIndex:   ptr.To(idx),\n\t\t}\n\t}\n\treturn obj, nil\n}\n\n"
+	objsHelperKept := strings.Replace(objsHelper, "\tobj := unstructured.Unstructured{}\n", "\tdefer func() { _ = idx }()\n\tobj := unstructured.Unstructured{}\n", 1)
+	objsHelperVariant := func(h, old, new string) []Edit {
+		if strings.Count(h, old) != 1 {
+			panic("mutants_c19: helper text does not contain " + old)
+		}
+		return []Edit{{File: objs, Old: objsLabelsDoc, New: strings.Replace(h, old, new, 1) + objsLabelsDoc}}
+	}
+	const objsCmTest = "\tif _, cmErr := parseConditionMapAnnotation(&obj); cmErr != nil {\n"
+	const objsCmReturn = "\t\t\tReason:  packagetypes.ViolationReasonInvalidConditionMapAnnotation,\n\t\t\tDetails: cmErr.Error(),\n\t\t\tPath:    path,\n\t\t\tIndex:   ptr.To(idx),\n\t\t}\n\t}\n"
 	addMutants(
 		// ---- R1 --------------------------------------------------------------------------------
 		Mutant{Prop: "C19", Name: "r1-revert-D4-unchecked-condition-fields", File: tmpl,
@@ -129,6 +150,39 @@ func init() {
 		Mutant{Prop: "C19", Name: "r4-benign-validation-locals-renamed", File: objs, Benign: true,
 			Old: "\t\tif _, cmErr := parseConditionMapAnnotation(&obj); cmErr != nil {\n\t\t\terr = packagetypes.ViolationError{\n\t\t\t\tReason:  packagetypes.ViolationReasonInvalidConditionMapAnnotation,\n\t\t\t\tDetails: cmErr.Error(),",
 			New: "\t\t_, mappingErr := parseConditionMapAnnotation(&obj)\n\t\tif nil != mappingErr {\n\t\t\terr = packagetypes.ViolationError{\n\t\t\t\tReason:  packagetypes.ViolationReasonInvalidConditionMapAnnotation,\n\t\t\t\tDetails: mappingErr.Error(),"},
+		Mutant{Prop: "C19", Name: "r4-benign-document-parser-helper", File: objs, Benign: true,
+			Old: objsBody, New: objsBodyCall,
+			More: []Edit{{File: objs, Old: objsLabelsDoc, New: objsHelper + objsLabelsDoc}}},
+		Mutant{Prop: "C19", Name: "r4-document-parser-helper-validation-guard-dropped", File: objs,
+			Old: objsBody, New: objsBodyCall,
+			More:   objsHelperVariant(objsHelper, objsCmTest, "\tif _, cmErr := parseConditionMapAnnotation(&obj); cmErr != nil && false {\n"),
+			Expect: []string{"C19.R4@(internal/packages/internal/packagerender.phaseCollector).AddObjects"}},
+		Mutant{Prop: "C19", Name: "r4-document-parser-helper-skips-validation-early", File: objs,
+			Old: objsBody, New: objsBodyCall,
+			More:   objsHelperVariant(objsHelper, objsCmTest, "\tif len(obj.GetLabels()) == 0 {\n\t\treturn obj, nil\n\t}\n"+objsCmTest),
+			Expect: []string{"C19.R4@(internal/packages/internal/packagerender.phaseCollector).AddObjects"}},
+		Mutant{Prop: "C19", Name: "r4-document-parser-helper-invalid-annotation-returned-without-error", File: objs,
+			Old: objsBody, New: objsBodyCall,
+			More: objsHelperVariant(strings.Replace(objsHelper, objsCmReturn, objsCmReturn[:len(objsCmReturn)-3]+"\t\treturn obj, nil\n\t}\n", 1),
+				"\t\treturn obj, packagetypes.ViolationError{\n\t\t\tReason:  packagetypes.ViolationReasonInvalidConditionMapAnnotation,", "\t\t_ = packagetypes.ViolationError{\n\t\t\tReason:  packagetypes.ViolationReasonInvalidConditionMapAnnotation,"),
+			Expect: []string{"C19.R4@(internal/packages/internal/packagerender.phaseCollector).AddObjects"}},
+		Mutant{Prop: "C19", Name: "r4-document-parser-helper-error-ignored-by-producer", File: objs,
+			Old: objsBody, New: strings.Replace(objsBodyCall, "\t\tobj, err = c19tParseObject(path, idx, yamlDocument)\n\t\tif err != nil {\n\t\t\treturn\n\t\t}\n", "\t\tobj, _ = c19tParseObject(path, idx, yamlDocument)\n", 1),
+			More:   []Edit{{File: objs, Old: objsLabelsDoc, New: objsHelper + objsLabelsDoc}},
+			Expect: []string{"C19.R4@(internal/packages/internal/packagerender.phaseCollector).AddObjects"}},
+		// the same helper kept as a call (a defer keeps the normaliser from merging it): judged per
+		// error-free return of the callee
+		Mutant{Prop: "C19", Name: "r4-benign-document-parser-helper-not-merged", File: objs, Benign: true,
+			Old: objsBody, New: objsBodyCall,
+			More: []Edit{{File: objs, Old: objsLabelsDoc, New: objsHelperKept + objsLabelsDoc}}},
+		Mutant{Prop: "C19", Name: "r4-document-parser-helper-not-merged-skips-validation-early", File: objs,
+			Old: objsBody, New: objsBodyCall,
+			More:   objsHelperVariant(objsHelperKept, objsCmTest, "\tif len(obj.GetLabels()) == 0 {\n\t\treturn obj, nil\n\t}\n"+objsCmTest),
+			Expect: []string{"C19.R4@(internal/packages/internal/packagerender.phaseCollector).AddObjects"}},
+		Mutant{Prop: "C19", Name: "r4-document-parser-helper-not-merged-validation-guard-dropped", File: objs,
+			Old: objsBody, New: objsBodyCall,
+			More:   objsHelperVariant(objsHelperKept, objsCmTest, "\tif _, cmErr := parseConditionMapAnnotation(&obj); cmErr != nil && false {\n"),
+			Expect: []string{"C19.R4@(internal/packages/internal/packagerender.phaseCollector).AddObjects"}},
 		Mutant{Prop: "C19", Name: "r4-benign-panic-message-and-guard-spelling", File: mval, Benign: true,
 			Old: "\t\tif len(configErrors) == 0 {\n",
 			New: "\t\tif len(configErrors) < 1 {\n"},
